@@ -333,7 +333,7 @@ def _stmt(st, fx, occ):
         r = rewrite(st)
         if r is not None:
             return _block(r, fx, occ)
-    for rewrite in (_lower_comp, _lower_extend):
+    for rewrite in ((_lower_comp, _lower_extend) if COMP[0] else ()):
         r = rewrite(st, fx, occ)
         if r is not None:
             return _block(r, fx, occ)
@@ -354,6 +354,9 @@ def _stmt(st, fx, occ):
         for c in st.cases:
             c.body = _block(c.body, fx, occ)
     return [st]
+
+
+COMP = [True]     # lower statement-level comprehensions (switched off for the rules that interpret them directly)
 
 
 def normalize_function(fn):
@@ -380,9 +383,13 @@ def _class_body(body):
     return out
 
 
-def normalize_module(tree):
+def normalize_module(tree, comp=True):
     if not ENABLED:
         return tree
-    tree.body = _class_body(tree.body)
+    COMP[0] = comp
+    try:
+        tree.body = _class_body(tree.body)
+    finally:
+        COMP[0] = True
     ast.fix_missing_locations(tree)
     return tree
